@@ -239,9 +239,14 @@ def oracle(sc, impl, aligned):
             if 'nm' not in answers and not any(c[1] == last_tree[m_] for c in f['gens']):
                 out['C10'].append(('nodeps-explicit', 'module %d was found in an explicitly requested file, no searcher says it is up to date, '
                                    'yet under noDeps it was not generated (status %s)' % (m_, st.get(m_))))
-        # ---- C19 (any scenario): such a module stays eligible for borrowing when its code generation fails
+        # ---- C19 (any scenario): such a module stays eligible for borrowing when its code generation fails, and nothing
+        # else is borrowed while dependencies are being skipped
         if sc['borrowers']:
             asked = set(c[2] for c in f['borrows'])
+            for n_ in sorted(asked):
+                if n_ not in sc['req'] and n_ not in explicit:
+                    out['C19'].append(('nodeps-borrow', 'module %d is a mere dependency (not requested, not found in a requested file), dependencies are '
+                                       'being skipped, yet a borrower was asked for it' % n_))
             for m_ in sorted(explicit):
                 answers = [s_.get(str(m_), 'nf') for s_ in sc['searchers']]
                 if 'nm' not in answers and sc['gen'].get(str(last_tree[m_]), 'err') == 'err' and m_ not in asked:
